@@ -15,7 +15,7 @@ from mc.util import Ctx, affine, compositions, sync_dask
 
 PROPERTY = "C20"
 RULE = (
-    "complete product: data sets (D in {1,2,3}, n <= 6, offsets 0, 1000.1, 2^20, 1e6+0.1, 1e8+0.7; duplicates; a cluster that "
+    "complete product: data sets (D in {1,2,3}, n <= 6 plus one of 11 and one of 15 rows made of clusters of identical non-dyadic samples, offsets 0, 1000.1, 2^20, 1e6+0.1, 1e8+0.7; duplicates; a cluster that "
     "captures nothing) x centroid sets (K in {1,2,3}: data points, off-data, far away, trained by 1-2 Lloyd iterations) x "
     "{batch, every single sample, every row composition of a dask array} for transform / predict / cluster variances and "
     "weights (also two lazy results in one graph, and dask arrays whose block lengths are unknown until computed), and a k-means initialised GMM "
@@ -37,6 +37,9 @@ DATA = {
     "e3": [[0.0, 1.0, 2.5], [1.0, 1.0, -3.0], [10.0, 0.0, 0.5], [9.0, 2.5, 0.0], [9.5, 2.0, 0.25]],
     "f2": [[0.1, 1 / 3], [0.7, 0.2], [3.3, 2.2], [3.1, 2.9], [0.2, 0.25]],
     "h1": [[0.0], [2.0], [1.0 + 2.0**-21], [1.0 - 2.0**-21], [0.5], [1.5]],  # two samples that are *almost* equidistant from the first two points
+    # three clusters of identical samples (3, 5 and 7 copies) with non-dyadic values: a centroid that is near but not on them makes
+    # E[(x-c)^2] and (E[x-c])^2 agree up to rounding only, so the variance must still come out as 0, never as -1e-18
+    "i2": [[0.37, -1.23]] * 3 + [[7.11, 4.93]] * 5 + [[-6.3, 9.17]] * 7,
     "g2": [[0.0, 0.0], [1.0, 0.0], [0.0, 1.0], [1.0, 1.0], [10.0, 10.0], [11.0, 10.0], [10.0, 12.0], [20.0, 0.0], [21.0, 1.0], [19.0, -1.0], [22.0, 0.0]],
 }
 OFFSETS = [0.0, 1000.1, 2.0**20, 1e6 + 0.1, 1e8 + 0.7]
@@ -65,7 +68,7 @@ def _centroid_sets(X, K):
 
 def cases(tier, seed):
     out = []
-    names = ["a1", "b1", "c2", "d2", "e3", "g2", "h1"] if tier == "quick" else list(DATA)
+    names = ["a1", "b1", "c2", "d2", "e3", "g2", "h1", "i2"] if tier == "quick" else list(DATA)
     offs = OFFSETS if tier == "thorough" else [0.0, 1000.1, 2.0**20, 1e8 + 0.7]
     for name in names:
         for off in offs:
